@@ -30,6 +30,8 @@ class C12(Prop):
         "NV.C12.growBy_pos",
         "NV.C12.cSpaceRule_spec",
         "NV.C12.arrivals_held",
+        "NV.C12.held_not_idle",
+        "NV.C12.held_keeps_table",
         "NV.C12.arrivals_append_partial",
         "NV.C12.arrivals_discard",
         "NV.C12.userIO_ovf",
@@ -192,6 +194,10 @@ class C12(Prop):
         comm = nocomment(open(os.path.join(E.REPO, "src/comm.c"), errors="replace").read())
         back = nocomment(open(os.path.join(E.REPO, "src/backend.c"), errors="replace").read())
         out = []
+        mb = re.search(r"\nvoid backend \(\) \{(.*?)\n\}", back, re.S)
+        if not mb:
+            raise X.TieBroken("guard:backend", "cannot locate backend() in src/backend.c")
+        back = mb.group(1) + "\n"       # every tie on backend.c looks at the body of backend() only
         # (a) the rotating cursor of get_user_command: both update sites must exist and agree
         m0 = re.search(r"static char\s*\*\s*get_user_command \(\) \{(.*?)\n\}", comm, re.S)
         if not m0:
